@@ -2,11 +2,14 @@ mod common;
 mod world;
 mod smoke;
 mod light;
+mod rooms;
+mod c01;
 
 fn main() {
     let args = common::parse_args();
     let code = match args.prop.as_str() {
         "smoke" => smoke::run(&args),
+        "C01" => c01::run(&args),
         other => {
             eprintln!("unknown property {}", other);
             2
